@@ -31,7 +31,7 @@ def node_source(i: Any, nd: Dict[str, Any]) -> str:
     if nd.get("ctx"):
         pre += f"    LOG('echo', {ident}, ctx.message.task_id, ctx.message.args[0] if ctx.message.args else None, ctx.message.labels.get('who'))\n"
     if nd.get("fail") == "before":
-        pre += f"    raise RuntimeError('dep{i} failed before yield')\n"
+        pre += f"    raise {nd.get('fail_exc') or 'RuntimeError'}('dep{i} failed before yield')\n"
     head = f"{'async ' if is_async else ''}def n{i}({', '.join(params)}):\n"
     if st_ in ("sync", "async"):
         return head + pre + f"    return {ident}"
